@@ -24,6 +24,8 @@ pure func trimS(s string) string { s[trimsetlo(s, "\n\r\t "):trimsethi(s, "\n\r\
 // the two halves partition() returns
 pure func p0(s string, d string) string { indexStr(s, d) < 0 ? s : s[:indexStr(s, d)] }
 pure func p1(s string, d string) string { indexStr(s, d) < 0 ? "" : s[indexStr(s, d)+len(d):] }
+// the version text of a header line: between the first '(' and the following ')' of the part before the first ';'
+pure func hdrVer(h string) string { trimspace(trimS(p0(p1(p0(h, ";"), "("), ")"))) }
 
 func trim
   ensures (len(result) == 0) == (forall k int :: 0 <= k && k < len(line) ==> isblk(line[k]))
@@ -62,12 +64,17 @@ func ParseOne
   // the change text is VERBATIM: one contiguous piece of the input, byte for byte (blank lines, indentation and line
   // endings as written)
   ensures result1 == nil ==> (exists s int, e int :: 0 <= s && s <= e && e <= len(old(reader.rem)) && result0.Changelog == old(reader.rem)[s:e])
-  // source name and distribution list are the pieces of the FIRST non-blank line of the input (the header): the name
-  // is what precedes the first '(' of the part before the first ';', the distributions what follows the first ')'
+  // source name, version and distribution list are the pieces of the FIRST non-blank line of the input (the header):
+  // the name is what precedes the first '(' of the part before the first ';', the version is what the version parser
+  // makes of the text up to the following ')', the distributions what follows that ')'
   ensures result1 == nil ==> (exists a int, b int :: 0 <= a && a < b && b <= len(old(reader.rem)) &&
       (forall k int :: 0 <= k && k < a ==> isblk(old(reader.rem)[k])) &&
       result0.Source == trimS(p0(p0(old(reader.rem)[a:b], ";"), "(")) &&
       result0.Target == trimS(p1(p1(p0(old(reader.rem)[a:b], ";"), "("), ")")))
+  ensures result1 == nil ==> (exists a int, b int :: 0 <= a && a < b && b <= len(old(reader.rem)) &&
+      (forall k int :: 0 <= k && k < a ==> isblk(old(reader.rem)[k])) &&
+      result0.Version.Epoch == vepoch(hdrVer(old(reader.rem)[a:b])) &&
+      result0.Version.Version == vupstream(hdrVer(old(reader.rem)[a:b])) && result0.Version.Revision == vrevision(hdrVer(old(reader.rem)[a:b])))
   // the maintainer is what stands between the "--" and the first double blank of the trailer line " -- ..."
   ensures result1 == nil ==> (exists c int, d int :: 0 <= c && c < d && d <= len(old(reader.rem)) && hasPrefix(old(reader.rem)[c:d], " -- ") &&
       result0.ChangedBy == trimS(p0(p1(old(reader.rem)[c:d], "--"), "  ")))
@@ -89,6 +96,7 @@ func ParseOne
     invariant header == old(reader.rem)[at(L2.entry, len(old(reader.rem)) - len(reader.rem)) - len(header) : at(L2.entry, len(old(reader.rem)) - len(reader.rem))] && len(header) >= 1 && at(L2.entry, len(old(reader.rem)) - len(reader.rem)) - len(header) >= 0 && at(L2.entry, len(old(reader.rem)) - len(reader.rem)) <= len(old(reader.rem))
     invariant forall k int :: 0 <= k && k < at(L2.entry, len(old(reader.rem)) - len(reader.rem)) - len(header) ==> isblk(old(reader.rem)[k])
     invariant changeLog.Source == trimS(p0(p0(header, ";"), "(")) && changeLog.Target == trimS(p1(p1(p0(header, ";"), "("), ")"))
+    invariant changeLog.Version.Epoch == vepoch(hdrVer(header)) && changeLog.Version.Version == vupstream(hdrVer(header)) && changeLog.Version.Revision == vrevision(hdrVer(header))
     decreases len(ranged()) - rangeindex
   loop 3:
     invariant reader != nil && len(reader.rem) < len(old(reader.rem)) && changeLog.Arguments != nil
@@ -97,6 +105,7 @@ func ParseOne
     invariant header == old(reader.rem)[at(L2.entry, len(old(reader.rem)) - len(reader.rem)) - len(header) : at(L2.entry, len(old(reader.rem)) - len(reader.rem))] && len(header) >= 1 && at(L2.entry, len(old(reader.rem)) - len(reader.rem)) - len(header) >= 0 && at(L2.entry, len(old(reader.rem)) - len(reader.rem)) <= len(old(reader.rem))
     invariant forall k int :: 0 <= k && k < at(L2.entry, len(old(reader.rem)) - len(reader.rem)) - len(header) ==> isblk(old(reader.rem)[k])
     invariant changeLog.Source == trimS(p0(p0(header, ";"), "(")) && changeLog.Target == trimS(p1(p1(p0(header, ";"), "("), ")"))
+    invariant changeLog.Version.Epoch == vepoch(hdrVer(header)) && changeLog.Version.Version == vupstream(hdrVer(header)) && changeLog.Version.Revision == vrevision(hdrVer(header))
     invariant changeLog.Changelog == old(reader.rem)[at(L3.entry, len(old(reader.rem)) - len(reader.rem)) : len(old(reader.rem)) - len(reader.rem)]
       by {
         assert line#2 == old(reader.rem)[len(old(reader.rem)) - len(at(L3.head, reader.rem)) : len(old(reader.rem)) - len(reader.rem)]
